@@ -1277,6 +1277,14 @@ type vNoRet struct{ nm string }
 
 func (p *vNoRet) Naming() string { return p.nm }
 
+// a component whose methods have the requested NAMES but take a parameter: it does not expose the
+// requested (parameterless) method, so it is no candidate - and asking must not break start-up
+type vArgRet struct{ nm string }
+
+func (p *vArgRet) Naming() string          { return p.nm }
+func (p *vArgRet) Stage(x int) string      { return "p" }
+func (p *vArgRet) Kind(x, y string) string { return "x" }
+
 func (h *vHRet) Naming() string { return h.nm }
 
 func VerifC06Returns() {
@@ -1295,13 +1303,22 @@ func VerifC06Returns() {
 	}
 	plain := &vNoRet{nm: "plain"}
 	r.register(plain, "plain")
+	if nd.Bool() {
+		r.register(&vArgRet{nm: "withargs"}, "withargs")
+		nd.Cover("a component whose method of the requested name takes parameters")
+	}
 	_, err := r.f.doGetComponent("holder")
 	nd.Assert(err == nil, "C06: optional func points never fail")
+	anyRets := 0
 	for _, e := range h.Any {
 		_, isRet := e.(*vRet)
-		nd.Assert(isRet, "C06: a func point with the wildcard result receives only components that expose the requested method")
+		_, isArg := e.(*vArgRet) // has a method of that name; whether its parameters disqualify it under the wildcard is not stated
+		nd.Assert(isRet || isArg, "C06: a func point with the wildcard result receives only components that expose the requested method")
+		if isRet {
+			anyRets++
+		}
 	}
-	nd.Assert(len(h.Any) == k, "C06: a func point with the wildcard result receives every component that exposes the requested method exactly once")
+	nd.Assert(anyRets == k && len(h.Any) <= k+1, "C06: a func point with the wildcard result receives every component that exposes the requested method exactly once")
 	count := func(list []any, p *vRet) int {
 		c := 0
 		for _, e := range list {
